@@ -257,7 +257,10 @@ func nodesOf(count string) int {
 	return n
 }
 
-var hashSlices = []string{"2", "-2", "0:2", "1:", "-3:", ":-1", ":", "0:0", "2:5"}
+// the negative end bounds :-2 / :-3 / 1:-3 / -4:-2 together with keys of exactly that many
+// characters (end == 0 after normalisation: Mycat hashes the empty slice) were added after
+// seeded change c08-1 was missed
+var hashSlices = []string{"2", "-2", "0:2", "1:", "-3:", ":-1", ":", "0:0", "2:5", ":-2", ":-3", "1:-3", "-4:-2"}
 
 func sliceKind(spec string) string {
 	s, e, err := javaref.SequenceSlicing(spec)
@@ -333,6 +336,9 @@ func keys(r *ev.Run) []key {
 		// ASCII
 		"", "a", "ab", "abc", "abcd", "abcde", "abcdef", "abcdefg", "abcdefgh", "Z", "hello, world", "?!)_FFSD", "ddda;kjelwr",
 		"user_10001", "A-1", " ", "a b",
+		// short keys whose whole-key hash does not fall into the first partition (so that
+		// "empty slice" and "whole key" are told apart)
+		"42", "zz", "zzz", "zzzz", "~~",
 		// BMP multi-byte
 		"é", "éé", "中", "中文", "中文ab", "ab中文", "a中b", "你好, 中国", "ｶﾅ", "€uro",
 		// outside the BMP
